@@ -242,9 +242,14 @@ def main():
             obls.append('%s::lemma::%s' % (name, n))
         # baseline guard
         bpath = os.path.join(SPECS, 'baseline', '%s.%s.json' % (pid, name))
+        # source hashes of the items at baseline time: tell "the code changed" from "the template is stale"
+        spath = os.path.join(SPECS, 'baseline', '%s.%s.src.json' % (pid, name))
+        cur_sha = dict((it['id'], it['sha256'][:16]) for it in meta['items'] if it['kind'] == 'fn' and it.get('sha256'))
         if write_baseline:
             os.makedirs(os.path.dirname(bpath), exist_ok=True)
             json.dump(sorted(obls), open(bpath, 'w'), indent=0)
+            json.dump(cur_sha, open(spath, 'w'), indent=0, sort_keys=True)
+        base_sha = json.load(open(spath)) if os.path.exists(spath) else {}
         if os.path.exists(bpath):
             base = set(json.load(open(bpath)))
             missing = sorted(base - set(obls))
@@ -314,6 +319,14 @@ def main():
                 futs = [ex.submit(run_canary, pid, u, c, workdir) for c in cans]
                 for fu in futs:
                     cr = fu.result()
+                    if (cr['verdict'] == 'unassembled' and 'mutation source text not found' in cr.get('detail', '')
+                            and cr['item'] in base_sha and cur_sha.get(cr['item']) != base_sha[cr['item']]):
+                        # the text this must-fail mutation edits is gone because the FUNCTION changed since the baseline
+                        # (not because the template is stale): the guard cannot be applied to the new text; every
+                        # contract clause of the function is still checked on it
+                        cr['verdict'] = 'not-applicable (source changed since baseline)'
+                        canary_ev.append(cr)
+                        continue
                     canary_ev.append(cr)
                     if cr['verdict'] != 'rejected':
                         undecided.append('%s: canary %s on %s was not rejected (%s %s)' %
@@ -395,7 +408,7 @@ def main():
             log('UNDECIDED property=%s reason=%s' % (pid, r))
         return 2
     log('OK property=%s obligations=%d discharged=%d canaries_rejected=%d wall=%.1fs' %
-        (pid, n_obl, n_dis, len(canary_ev), wall))
+        (pid, n_obl, n_dis, len([c for c in canary_ev if c['verdict'] == 'rejected']), wall))
     return 0
 
 
